@@ -458,9 +458,10 @@ func (g *treeGen) leaf() *Node {
 		return nStr(lib.Pick(g.r, []string{"", "a", "x", "1"}))
 	case 3, 4:
 		// floats that equal or neighbour the integers of the pool (10.0 vs 10, 9.0 vs 10, both zeros)
-		return nFlt(lib.Pick(g.r, []float64{0.5, 2.5, 0, math.Copysign(0, -1), 1, 2, 3, 9, 10, 10.5, 11}))
+		// and negative non-whole floats next to the integers they truncate and round to
+		return nFlt(lib.Pick(g.r, []float64{0.5, 2.5, 0, math.Copysign(0, -1), 1, 2, 3, 9, 10, 10.5, 11, -2.5, -1.5, -0.5, -2}))
 	default:
-		return nInt(lib.Pick(g.r, []int64{0, 1, 2, 3, 4, 9, 10, 11, -1}))
+		return nInt(lib.Pick(g.r, []int64{0, 1, 2, 3, 4, 9, 10, 11, -1, -2, -3}))
 	}
 }
 
